@@ -2014,7 +2014,8 @@ def to_arrow(
 
     def recurse(layout, mask, is_option):
         if isinstance(layout, ak.layout.NumpyArray):
-            numpy_arr = numpy.asarray(layout)
+            # Arrow buffers are contiguous; a sliced or structured-field view is not
+            numpy_arr = numpy.ascontiguousarray(numpy.asarray(layout))
             length = len(numpy_arr)
             arrow_type = pyarrow.from_numpy_dtype(numpy_arr.dtype)
 
